@@ -40,7 +40,7 @@ def gen_configs(ctx, n, threads=(1, 2, 3, 4), ckpts=(1, 2, 3, 7, 0), big=False, 
     return out
 
 
-def run_one(ctx, mode, cfg, tag):
+def run_one(ctx, mode, cfg, tag, model=True):
     """runs the implementation, then the model on the same lines; returns dict(stats, div, outcome)"""
     ops, cf = ctx.path("ops_%s" % tag), ctx.path("c_%s" % tag)
     args = [ctx.path("hrun"), mode, ops, cf] + ["%s=%s" % kv for kv in sorted(cfg.items())]
@@ -59,8 +59,20 @@ def run_one(ctx, mode, cfg, tag):
         stats = {"outcome": "crash"}
     res["outcome"] = stats["outcome"]
     lf = cf + ".lean"
-    ok = ctx.driver(mode, ops, lf)
     c = open(cf, errors="replace").read().splitlines()
+    if not model:
+        # no Lean twin for this configuration (floating-point library calls): implementation-side oracles only
+        res["div"] = None
+        res["lines"] = 0
+        res["sample"] = []
+        res["finals"] = sorted(x.split(" seq=")[0] for x in c if x.startswith("finilp"))
+        for f in (ops, cf):
+            try:
+                os.remove(f)
+            except OSError:
+                pass
+        return res
+    ok = ctx.driver(mode, ops, lf)
     l = open(lf, errors="replace").read().splitlines()
     o = open(ops, errors="replace").read().splitlines()
     div = None
@@ -220,6 +232,15 @@ def run_serial(ctx, cfg, tag):
     tqs = [int(x.split("tq=")[1].split()[0]) for x in c if x.startswith("d ")]
     res["unsorted"] = sum(1 for a, b in zip(tqs, tqs[1:]) if b < a)
     res["ties"] = sum(1 for a, b in zip(tqs, tqs[1:]) if b == a)
+    # S oracle: a run without termination time stops only when every predicate holds (or nothing is left to process)
+    res["premature"] = 0
+    if not cfg.get("tterm") and res["outcome"] == "ok":
+        fin = [x for x in c if x.startswith("sfini")]
+        short = [x for x in fin if int(x.split("cnt=")[1].split()[0]) < int(x.split("thr=")[1].split()[0])]
+        pending = stats.get("dispatch", 0) if stats else 0
+        if short and len(short) < len(fin):
+            # some LPs ended, others did not: legitimate only if the event queue ran dry, which GenModel ticks exclude
+            res["premature"] = len(short)
     res["sample"] = c[5:8]
     for f in (ops, cf, lf):
         try:
@@ -227,3 +248,48 @@ def run_serial(ctx, cfg, tag):
         except OSError:
             pass
     return res
+
+
+def lib_matrix(ctx, rnd):
+    """models that also call the floating-point numerical library (no Lean twin): implementation-side oracles only.
+    Returns the number of configuration pairs compared."""
+    import concurrent.futures
+    pairs = 0
+    # ---- second matrix: models that also call Normal/Poisson/Gamma/RandomRange/RandomRangeNonUniform (no Lean twin for
+    # floating point): the same model+seed under several configurations must end in the same states, and every rollback
+    # must reproduce the state digest recorded when that history position was first reached (RNG replay after rollback)
+    lib_jobs, lib_groups = [], []
+    for g in range(4 if ctx.tier == "quick" else 40):
+        base = gen_configs(ctx, 1)[0]
+        base.update({"mseed": rnd.randrange(1, 1 << 30), "pseed": rnd.randrange(1, 1 << 40), "lps": rnd.choice([2, 3, 4, 6]),
+                     "rng": 1, "mem": rnd.choice([0, 1]), "lib": 1, "thr": rnd.choice([60, 120, 250])})
+        vs = []
+        for k in range(5):
+            c = dict(base)
+            c.update({"threads": rnd.choice([1, 2, 3, 4]), "ckpt": rnd.choice([1, 2, 3, 7, 0]), "period": rnd.choice([0, 10, 1000]),
+                      "burst": rnd.choice([20, 200, 600]), "seed": rnd.randrange(1, 1 << 30)})
+            vs.append(c)
+            lib_jobs.append((g, k, c))
+        lib_groups.append(vs)
+    lib_agg = Agg()
+    lib_finals = {}
+    with concurrent.futures.ThreadPoolExecutor(max_workers=12) as ex:
+        for g, k, r in ex.map(lambda j: (j[0], j[1], run_one(ctx, "par", j[2], "l%d_%d" % (j[0], j[1]), model=False)), lib_jobs):
+            lib_agg.add(r)
+            lib_finals.setdefault(g, []).append((k, r))
+    if lib_agg.tot.get("s_rb_mismatch", 0):
+        ctx.violation("rng-or-state-not-replayed-after-rollback", {"count": lib_agg.tot["s_rb_mismatch"],
+                      "note": "state digest after a rollback differs from the digest recorded at that history position (models using the numerical library)"}, True)
+    for r in lib_agg.crashes[:2]:
+        ctx.violation("runtime-crash", {"cfg": r["cfg"], "output": r["out"][-500:]}, True)
+    for g, lst in lib_finals.items():
+        digs = {k: r["finals"] for k, r in lst if r["outcome"] == "ok" and r.get("finals")}
+        ks = sorted(digs)
+        for a in ks[1:]:
+            pairs += 1
+            if digs[a] != digs[ks[0]]:
+                ctx.violation("config-dependence", {"cfg_a": lib_groups[g][ks[0]], "cfg_b": lib_groups[g][a],
+                                                    "finals_a": digs[ks[0]], "finals_b": digs[a]}, True)
+    ctx.coverage["library_rng_matrix"] = {"runs": lib_agg.runs, "rollbacks_checked": lib_agg.tot.get("s_rb_checked", 0),
+                                          "outcomes": lib_agg.outcomes}
+    return pairs
